@@ -238,6 +238,29 @@ Theorem C02_in_sync_unknown_identifier_in_choice_state : forall c sk w more, is_
   has_err (pos_of sk) 990 (word_msgs c sk w ++ more) \/ has_err (pos_of sk) 992 (word_msgs c sk w ++ more).
 Proof. exact (insync_unknown_id_choice_state (conj eq_refl (conj eq_refl eq_refl))). Qed.
 
+(* THE FIRST TDH OF A PAGE: the word right behind the IHW of any data page of a conforming link.  ANY word w there (in data format 2: not
+   starting with six zero bytes -- such a word makes the tool cut the payload in 16-byte slots, finding F12), ANY words behind, ANY packets
+   after: w is judged where only a TDH can stand (the state after an IHW, or after the IHW of a page that continues a packet), at packet
+   offset + 64 + one slot; EVERY word that is no sane TDH draws [E40] there.  With this every word position of a conforming ITS link is
+   covered: IHW, first TDH, further TDHs, data words / TDT, DDW0. *)
+Theorem C02_in_sync_first_tdh_position : forall ld, wf_link_rdh ld = true -> l_system ld = Gen.Facts.its_system_id -> (l_format ld = 0 \/ l_format ld = 2) ->
+  forall running hbfs1 ihs1 h hbfs2 pgs1 pg pgs2 ips1 ip ips2 ihw w rest pad ps1 p ps2,
+    l_hbfs ld = hbfs1 ++ h :: hbfs2 -> Forall2 (its_hbf_ok (l_format ld)) hbfs1 ihs1 ->
+    h_pages h = pgs1 ++ pg :: pgs2 -> pages_ok h true None (ips1 ++ ip :: ips2) ->
+    map pg_payload pgs1 = map (fun q => layout (l_format ld) (page_words q) (ip_pad q)) ips1 ->
+    W_ihw ihw -> Forall gw (w :: rest) -> (l_format ld = 0 \/ not_six_zeros w) -> (pad <= 15)%nat ->
+    pg_payload pg = layout (l_format ld) (ihw :: w :: rest) pad ->
+    map strip ps1 = flat_map (render_hbf ld) hbfs1 ++ render_pages ld h 0 pgs1 ->
+    strip p = (render_rdh ld h (N.of_nat (length pgs1)) 0 pg, pg_payload pg) ->
+    c_off p + 64 + 2 * 16 < 18446744073709551616 ->
+    exists sk, (cs_fsm sk = S_cTDH \/ cs_fsm sk = S_TDH_ByIhw) /\
+      pos_of sk = C07_proofs.wpos (c_off p + 64) (10 + C07_proofs.pad_of (c_rdh p)) 1 /\
+      exists out more, run_validator (its_cfg running) (ps1 ++ p :: ps2) = Ok out /\ out = word_msgs (its_cfg running) sk w ++ more.
+Proof. exact (c02_insync_link_first_tdh (conj eq_refl (conj eq_refl eq_refl))). Qed.
+Theorem C02_in_sync_first_tdh_fault : forall c sk w more, (cs_fsm sk = S_cTDH \/ cs_fsm sk = S_TDH_ByIhw) ->
+  tdh_sanity w <> [] -> has_err (pos_of sk) 40 (word_msgs c sk w ++ more).
+Proof. exact insync_first_tdh_fault. Qed.
+
 (* FROM THE VALIDATOR TO THE END OF THE RUN.  The detection theorems above are about one validator's pass.  For ONE WHOLE `check` RUN
    on a well-framed input (any number of units, any interleaving, any filter, any display option; provisos as in C05_whole_run): every
    error message a unit's validator emits in its pass over the unit's packets is stored in the final state of the run -- at ITS
@@ -273,6 +296,19 @@ Proof.
            c02_end_to_end c pkts (eq_refl : Gen.Facts.cdp_offset_sampled_after = true) (eq_refl : Gen.Facts.error_sort_when_muted = true)
                           H1 H2 H3 H4 H5 ff s shown ex id ms off code).
 Qed.
+
+(* end to end on bytes: the example link of C02_in_sync_tdh_example, its RDHs encoded, as ONE input of 616 bytes; `check all its -E 9`: the
+   faulty TDH-identified word (6th word of the 5th packet, which starts at byte 470) is reported as [E40] at 470 + 64 + 60 = 594, the
+   arbitrary word behind it at 604, and the exit status is 9 *)
+Definition e2e_pkts : list packet := map (fun c => {| p_hdr := encode_rdh (c_rdh c); p_payload := c_payload c |}) (ExampleT.ps1 ++ [ExampleT.pT]).
+Definition e2e_cfg : run_cfg :=
+  {| rc_scan := {| sc_filter := None; sc_skip := false; sc_src := Src_file |}; rc_check := its_cfg true;
+     rc_mute := false; rc_cap := 0; rc_filter := None; rc_exit := Some 9; rc_counts := {| cc_cdps := None; cc_pht := None |} |}.
+Definition view_run (r : run_result) : list (N * N) * N :=
+  match r with R_done s _ e => (map (fun m => (m_off m, m_body m)) (k_errors s), e) | _ => ([], 255) end.
+Example C02_end_to_end_example :
+  length (serialize e2e_pkts) = 616%nat /\ view_run (run_check true e2e_cfg (serialize e2e_pkts)) = ([(594, 40); (604, 991); (604, 70)], 9).
+Proof. split; vm_compute; reflexivity. Qed.
 
 Print Assumptions C02_rdh_sanity_reported.
 Print Assumptions C02_rdh_running_reported.
@@ -312,3 +348,6 @@ Print Assumptions C02_in_sync_ddw0_position.
 Print Assumptions C02_in_sync_ddw0_fault.
 Print Assumptions C02_in_sync_unknown_identifier_in_choice_state.
 Print Assumptions C02_end_to_end.
+Print Assumptions C02_in_sync_first_tdh_position.
+Print Assumptions C02_in_sync_first_tdh_fault.
+Print Assumptions C02_end_to_end_example.
